@@ -44,6 +44,16 @@ def ref_literal(ctx: Ctx, c: Class) -> Optional[str]:
             s = const_str(v)
             if s is not None:
                 return s
+            # `return _REF` with `_REF = Ref("dbfs.x")` (or the bare string) bound once at module level
+            if isinstance(v, ast.Name):
+                sts = m.module.assigns.get(v.id, [])
+                if len(sts) == 1:
+                    v2 = getattr(sts[0], "value", None)
+                    if isinstance(v2, ast.Call) and v2.args:
+                        v2 = v2.args[0]
+                    s = const_str(v2) if v2 is not None else None
+                    if s is not None:
+                        return s
             # `return Ref(self._ref)`: the reference is a class-level constant of the codec class (template-method codecs)
             if isinstance(v, ast.Attribute) and isinstance(v.value, ast.Name) and v.value.id in ("self", "cls"):
                 s = class_attr_const(ctx, c, v.attr)
